@@ -134,6 +134,17 @@ def nurbs_routes(geo, sdim, dim, scalar, ps, ns):
         c.check(G.eq(R(f.eval(*xyz), (m,)), N), 'NurbsFunc.eval = grid route')
         c.check(G.eq(R(f.pointwise_eval(pts), (m,)), N), 'NurbsFunc.pointwise_eval = grid route')
         c.check(z3.BoolVal(f.is_scalar() == scalar and f.dim == (1 if scalar else dim) and f.sdim == sdim and f.output_shape() == (() if scalar else (dim,))), 'NurbsFunc metadata')
+        if sdim == 1 and not scalar:
+            # operation sequence on ONE object (the idiom geometry.disk() uses): evaluate derivatives, re-bind the coefficient array, evaluate again
+            f.grid_jacobian(grid); f.grid_hessian(grid)
+            Cv2 = sx.symarray('V2', tuple(ns) + (dim,)); Cw2 = sx.symarray('W2', tuple(ns))
+            f.coeffs = np.concatenate((Cv2, Cw2[..., None]), axis=-1)
+            V2 = R(G.bsp_value(kvs, Cv2, nodes), (dim,)); W2 = G.bsp_value(kvs, Cw2, nodes)
+            Vj2 = R(G.bsp_jac(kvs, Cv2, nodes), (dim, sdim)); Wj2 = R(G.bsp_jac(kvs, Cw2, nodes), (sdim,))
+            c.assume(lift(W2) != 0)
+            N2 = R(f.grid_eval(grid), (dim,)); J2 = R(f.grid_jacobian(grid), (dim, sdim)); P2 = R(f.pointwise_jacobian(pts), (dim, sdim))
+            c.check(z3.And(*[lift(N2[i] * W2) == lift(V2[i]) for i in range(dim)] + [lift(J2[i, a] * W2 + N2[i] * Wj2[a]) == lift(Vj2[i, a]) for i in range(dim) for a in range(sdim)]
+                           + [G.eq(P2, J2)]), 'after re-binding .coeffs every route (values, grid and pointwise Jacobian) uses the new coefficients')
         c.witness('nurbs routes')
     return run
 
